@@ -189,6 +189,49 @@ pub proof fn lemma_full32_prefix(d: Seq<u64>)
     assert((2 * n - 1) / 2 == n - 1 && (2 * n - 1) % 2 == 1);
 }
 
+//@ extract src/biguint.rs :: struct BigUint
+pub struct BigUint {
+    data: Vec<BigDigit>,
+}
+//@ end
+
+//@ include prelude/biguint_view.rs
+/// the base-2^32 digits of a digit vector: both halves of every digit, without a zero top half of the last one
+pub open spec fn digits32(d: Seq<u64>) -> Seq<u32> {
+    full32(d).subrange(0, 2 * d.len() - (if d.len() > 0 && hi32(d[d.len() - 1]) == 0 { 1int } else { 0int }))
+}
+
+impl BigUint {
+//@ extract src/biguint.rs :: impl BigUint :: fn iter_u32_digits props=C09
+    pub fn iter_u32_digits(&self) -> /*+*/(r: /*-*/U32Digits<'_>/*+*/)/*-*/
+//+{
+        ensures r.inv(), r.view() == digits32(self.dg())
+//+}
+    {
+//+{
+        proof { axiom_vec_u64_len(&self.data); }
+//+}
+        U32Digits::new(self.data.as_slice())
+    }
+//@ end
+
+//@ extract src/biguint.rs :: impl BigUint :: fn to_u32_digits rules=R0,R45 props=C09
+    pub fn to_u32_digits(&self) -> /*+*/(r: /*-*/Vec<u32>/*+*/)/*-*/
+//+{
+        ensures r@ =~= digits32(self.dg())
+//+}
+    {
+        { let mut it__ = self.iter_u32_digits(); let mut v__ = Vec::new(); loop
+//+{
+            invariant it__.inv(), v__@ + it__.view() =~= digits32(self.data@)
+            ensures v__@ =~= digits32(self.data@)
+            decreases it__.view().len()
+//+}
+        { match it__.next() { Some(x__) => v__.push(x__), None => break, } } v__ }
+    }
+//@ end
+}
+
 } // mod u
 } // verus!
 fn main() {}
